@@ -267,7 +267,89 @@ def c16_4(ctx):
     return out
 
 
+def _get_address_terms(ctx):
+    """P2WSHSortedMulti.get_address over free terms: three key records whose derived keys sort differently from the records, the
+    xpub parser / child derivation / script classes / sha256 are stand-ins that record their arguments.  For every combination of
+    is_change x sort_keys x offset the address must be P2WSH(sha256(m <keys> n CHECKMULTISIG)) with key_i =
+    parent_i.child(account_i [+1 for change]).child(offset), the keys in BIP67 order when sort_keys."""
+    from sa.cells import Evaluator, Obj, Raised, Undecided
+    spec = "descriptor:P2WSHSortedMulti.get_address"
+    mod, fn = rl.get(ctx, spec)
+    recs = [{"xpub_parent": "xpubC", "account_index": 0, "xfp": "aa", "path": "m/48h"}, {"xpub_parent": "xpubA", "account_index": 0, "xfp": "bb", "path": "m/48h"},
+            {"xpub_parent": "xpubB", "account_index": 7, "xfp": "cc", "path": "m/48h"}]
+
+    def sec_of(name, path):
+        return bytes([2, ord(name[-1])]) + b"".join(i.to_bytes(2, "big") for i in path) + bytes(27)
+
+    def opaque(name, args, kw):
+        if name == "number_to_op_code":
+            return ("OPN", args[0])
+        if name == "sha256":
+            return ("sha256", args[0])
+        return NotImplemented
+
+    def hd_child(o, i, *a, **k):
+        return Obj("hd", "HDPublicKey", {"name": o.attrs["name"], "path": o.attrs["path"] + (i,)})
+
+    def script_init(o, commands=None, *a, **k):
+        o.attrs["commands"] = list(commands or [])
+
+    def spk_init(o, h=None, *a, **k):
+        o.attrs["h"] = h
+    hooks = {("HDPublicKey", "parse"): lambda cls, x, *a, **k: Obj("hd", "HDPublicKey", {"name": x, "path": ()}), ("HDPublicKey", "child"): hd_child,
+             ("HDPublicKey", "sec"): lambda o, *a, **k: sec_of(o.attrs["name"], o.attrs["path"]),
+             ("WitnessScript", "__init__"): script_init, ("WitnessScript", "raw_serialize"): lambda o: ("raw", tuple(o.attrs["commands"])),
+             ("P2WSHScriptPubKey", "__init__"): spk_init, ("P2WSHScriptPubKey", "address"): lambda o, network="mainnet", **k: ("addr", o.attrs["h"], network)}
+    seen = {}
+    cells = 0
+    for is_change in (False, True):
+        for sort_keys in (True, False):
+            for offset in (0, 5):
+                cells += 1
+                me = Obj("descriptor", "P2WSHSortedMulti", {"quorum_m": 2, "key_records": [dict(r) for r in recs], "network": "testnet", "sort_key_records": True})
+                try:
+                    r = Evaluator(ctx.repo, opaque=opaque, method_hooks=hooks).call(spec, [], kwargs={"offset": offset, "is_change": is_change, "sort_keys": sort_keys}, self_obj=me)
+                except Raised as x:
+                    return [ctx.bad(spec, "get_address(offset=%d, is_change=%s, sort_keys=%s) raises %s" % (offset, is_change, sort_keys, x.name), fn, mod, key="script-shape")]
+                keys = [sec_of(k["xpub_parent"], (k["account_index"] + (1 if is_change else 0), offset)) for k in recs]
+                if sort_keys:
+                    keys = sorted(keys)
+                want = ("addr", ("sha256", ("raw", (("OPN", 2),) + tuple(keys) + (("OPN", 3), 174))), "testnet")
+                seen[(is_change, sort_keys, offset)] = r
+                if r == want:
+                    continue
+                what = "get_address(offset=%d, is_change=%s, sort_keys=%s)" % (offset, is_change, sort_keys)
+                if not (isinstance(r, tuple) and len(r) == 3 and r[0] == "addr"):
+                    raise Undecided("result %r" % (r,))
+                if r[2] != "testnet":
+                    return [ctx.bad(spec, "%s: the address is encoded for network %r, not the descriptor's network" % (what, r[2]), fn, mod, key="script-shape")]
+                h = r[1]
+                if not (isinstance(h, tuple) and h[0] == "sha256" and isinstance(h[1], tuple) and h[1][0] == "raw"):
+                    return [ctx.bad(spec, "%s: the address is not P2WSH(sha256(witness script))" % what, fn, mod, key="script-shape")]
+                cmds = list(h[1][1])
+                got_keys = [c for c in cmds if isinstance(c, bytes)]
+                if sorted(got_keys) != sorted(keys):
+                    other = [sec_of(k["xpub_parent"], (k["account_index"] + (0 if is_change else 1), offset)) for k in recs]
+                    if sorted(got_keys) == sorted(other):
+                        return [ctx.bad(spec, "%s: the keys are derived on the %s branch" % (what, "receive" if is_change else "change"), fn, mod, key="branches-differ")]
+                    return [ctx.bad(spec, "%s: the script's keys are not parent.child(branch).child(offset) of every key record" % what, fn, mod, key="derivation")]
+                if got_keys != keys:
+                    return [ctx.bad(spec, "%s: the keys are %s" % (what, "not in BIP67 (lexicographic) order" if sort_keys else "re-ordered although sort_keys is off"), fn, mod,
+                                    key="script-shape")]
+                return [ctx.bad(spec, "%s: the script is not `m <keys> n OP_CHECKMULTISIG` (got %s around the keys)" % (what, [c for c in cmds if not isinstance(c, bytes)]), fn, mod,
+                                key="script-shape")]
+    ctx.count("cells", cells)
+    return [ctx.ok(spec, "change branch = account + 1, receive branch = account: never equal (free-term evaluation, %d combinations)" % cells, fn, mod, key="branches-differ"),
+            ctx.ok(spec, "leaf key = parent.child(branch).child(offset)", fn, mod, key="derivation"),
+            ctx.ok(spec, "script = m <keys> n OP_CHECKMULTISIG; address = P2WSH(sha256(script))", fn, mod, key="script-shape")]
+
+
 def c16_5(ctx):
+    from sa.cells import Undecided
+    try:
+        return _get_address_terms(ctx)
+    except Undecided:
+        pass
     spec = "descriptor:P2WSHSortedMulti.get_address"
     mod, fn = rl.get(ctx, spec)
     cfg = cfg_of(fn)
